@@ -170,6 +170,7 @@ class Seams:
         self.owner_tag = "call"
         self.watch: tuple[str, ...] = ()
         self.render_calls = 0
+        self.sleep_hook = None
 
     # -- fault bookkeeping
     def arm(self, step: str | None, k: int = 1):
@@ -254,8 +255,15 @@ class Seams:
         for name in ("time", "Image", "_TEMP_DIR", "ImageIterator"):
             if not hasattr(common, name):
                 raise MachineryError(f"term_image.image.common.{name} is missing: seam lost")
+        def _sleep(_seconds):
+            # never sleeps; the point between two frames of an animated draw() where a
+            # "user" (signal handler / other thread in real life) can act: World sets a hook
+            hook, seams.sleep_hook = seams.sleep_hook, None
+            if hook is not None:
+                hook()
+
         common.time = type("NoSleep", (), {"time": staticmethod(time.time),
-                                          "sleep": staticmethod(lambda s: None)})
+                                          "sleep": staticmethod(_sleep)})
         if not str(common._TEMP_DIR).startswith(str(TMPD)):
             raise MachineryError(f"library temp dir {common._TEMP_DIR} is not under {TMPD}")
         self.watch = (str(LIB) + os.sep, str(common._TEMP_DIR) + os.sep)
@@ -508,7 +516,7 @@ TABLE = Table()
 # ----------------------------------------------------------------------------- the world
 def new_action(op: str, **kw) -> dict:
     a = dict(op=op, kind="", anim=False, outcome="", spec="", rep=0, cached=False, pos=0,
-             size="", term=0, animated=False, fault="none")
+             size="", term=0, animated=False, fault="none", during="")
     a.update(kw)
     return a
 
@@ -693,6 +701,8 @@ class World:
         """Run one abstract operation on the real objects; returns the event."""
         op = a["op"]
         a = dict(a)
+        a.setdefault("during", "")
+        during_fired = [False]
         frame_s: list[str | None] = [None]
         nframes = [0]
         exc_text: list[str | None] = [None]
@@ -733,7 +743,17 @@ class World:
                     kw = dict(animate=a["animated"])
                     if a["animated"]:
                         kw.update(repeat=a["rep"], cached=self._cached_arg(a["cached"]))
-                    self.image.draw("<", 1, "^", 1, **kw)
+                    if a["during"]:
+                        # the user changes the size while the animation is running
+                        def hook(image=self.image, size=a["during"]):
+                            during_fired[0] = True
+                            self._set_size(image, size)
+
+                        SEAMS.sleep_hook = hook
+                    try:
+                        self.image.draw("<", 1, "^", 1, **kw)
+                    finally:
+                        SEAMS.sleep_hook = None
                 out = buf.getvalue()
                 if anim_draw:
                     nframes[0] = a["rep"] * NFRAMES  # not decoded (see notes): C06's domain
@@ -794,6 +814,7 @@ class World:
             rendered = SEAMS.render_calls - renders_before
             # the paired iterator (opposite cache setting) receives the same iterator operations
             pair, pair_err = "na", None
+            self.during_fired = during_fired[0]
             if self.pair and not self.shadow_dead:
                 pair, pair_err = self._mirror(a, res, frame_s[0])
                 if pair == "diff":
@@ -810,6 +831,9 @@ class World:
             else:
                 a["fault"] = "none"
                 a["unfired"] = list(concrete)
+        if a["during"] and not during_fired[0]:
+            a["during_unfired"] = a["during"]  # the animation never paused: nothing was set
+            a["during"] = ""
         frame = (-1, "")
         if frame_s[0] is not None and res == "ok":
             spec = (self._concrete_spec(a["spec"]) if op == "format" else
@@ -868,6 +892,8 @@ class World:
                 return "na", None
             elif op == "setsize":
                 self._set_size(self.shadow, a["size"])
+            elif op == "draw" and a["during"] and self.during_fired:
+                self._set_size(self.shadow, a["during"])  # the user's change applies to the twin too
             elif op == "iter" and res == "ok":
                 self.shadow_it = SEAMS.common.ImageIterator(
                     self.shadow, a["rep"], self._concrete_spec(a["spec"]), not a["cached"]
